@@ -61,14 +61,6 @@ class IWorld(PWorld):
     def __init__(self, cx, contains_facts):
         super().__init__(cx)
         self.contains_facts = contains_facts
-        from pyvc import ops
-
-        def model_set(frozen):
-            def f(ctx, it=()):
-                r = (ops.py_frozenset if frozen else ops.py_set)(ctx, it)
-                return SmallSet((), frozen) if isinstance(r, (set, frozenset)) and not r else r  # an empty set that may later hold symbolic characters
-            return f
-        self.globals.update(set=model_set(False), frozenset=model_set(True))
 
     def fact(self, ctx, name):
         if ':contains ' in name and not self.contains_facts:
